@@ -67,20 +67,39 @@ func with(f func()) {
 	f()
 }
 
-func Uint64() (v uint64)           { with(func() { v = globalR.Uint64() }); return }
-func Uint32() (v uint32)           { with(func() { v = globalR.Uint32() }); return }
-func Int64() (v int64)             { with(func() { v = globalR.Int64() }); return }
-func Int32() (v int32)             { with(func() { v = globalR.Int32() }); return }
-func Int() (v int)                 { with(func() { v = globalR.Int() }); return }
-func Int64N(n int64) (v int64)     { with(func() { v = globalR.Int64N(n) }); return }
-func Uint64N(n uint64) (v uint64)  { with(func() { v = globalR.Uint64N(n) }); return }
-func Int32N(n int32) (v int32)     { with(func() { v = globalR.Int32N(n) }); return }
-func Uint32N(n uint32) (v uint32)  { with(func() { v = globalR.Uint32N(n) }); return }
-func IntN(n int) (v int)           { with(func() { v = globalR.IntN(n) }); return }
-func UintN(n uint) (v uint)        { with(func() { v = globalR.UintN(n) }); return }
-func Float64() (v float64)         { with(func() { v = globalR.Float64() }); return }
-func Float32() (v float32)         { with(func() { v = globalR.Float32() }); return }
-func Perm(n int) (v []int)         { with(func() { v = globalR.Perm(n) }); return }
+func Uint64() (v uint64)                 { with(func() { v = globalR.Uint64() }); return }
+func Uint32() (v uint32)                 { with(func() { v = globalR.Uint32() }); return }
+func Int64() (v int64)                   { with(func() { v = globalR.Int64() }); return }
+func Int32() (v int32)                   { with(func() { v = globalR.Int32() }); return }
+func Int() (v int)                       { with(func() { v = globalR.Int() }); return }
+func Int64N(n int64) (v int64)           { with(func() { v = globalR.Int64N(n) }); return }
+func Uint64N(n uint64) (v uint64)        { with(func() { v = globalR.Uint64N(n) }); return }
+func Int32N(n int32) (v int32)           { with(func() { v = globalR.Int32N(n) }); return }
+func Uint32N(n uint32) (v uint32)        { with(func() { v = globalR.Uint32N(n) }); return }
+func IntN(n int) (v int)                 { with(func() { v = globalR.IntN(n) }); return }
+func UintN(n uint) (v uint)              { with(func() { v = globalR.UintN(n) }); return }
+func Float64() (v float64)               { with(func() { v = globalR.Float64() }); return }
+func Float32() (v float32)               { with(func() { v = globalR.Float32() }); return }
+func Perm(n int) (v []int)               { with(func() { v = globalR.Perm(n) }); return }
 func Shuffle(n int, swap func(i, j int)) { with(func() { globalR.Shuffle(n, swap) }) }
-func NormFloat64() (v float64)     { with(func() { v = globalR.NormFloat64() }); return }
-func ExpFloat64() (v float64)      { with(func() { v = globalR.ExpFloat64() }); return }
+func NormFloat64() (v float64)           { with(func() { v = globalR.NormFloat64() }); return }
+func ExpFloat64() (v float64)            { with(func() { v = globalR.ExpFloat64() }); return }
+
+// Uint is rand.Uint.
+func Uint() (v uint) { with(func() { v = globalR.Uint() }); return }
+
+// N is rand.N: a value in [0, n) of any integer type.
+func N[Int interface {
+	~int | ~int8 | ~int16 | ~int32 | ~int64 | ~uint | ~uint8 | ~uint16 | ~uint32 | ~uint64 | ~uintptr
+}](n Int) Int {
+	if n <= 0 {
+		panic("invalid argument to N")
+	}
+	return Int(Uint64N(uint64(n)))
+}
+
+// Zipf is rand.Zipf.
+type Zipf = randv2.Zipf
+
+// NewZipf is rand.NewZipf.
+func NewZipf(r *Rand, s float64, v float64, imax uint64) *Zipf { return randv2.NewZipf(r, s, v, imax) }
